@@ -34,6 +34,7 @@ type Engine struct {
 	UFns        map[string]*spec.SpecFn
 	GhostFields map[string]string
 	Census      []*spec.Census
+	Sweeps      []*spec.Sweep
 	Regexes     []*RegexDecl
 	Structs     []*StructDecl
 	guards      map[string]*guardInfo
@@ -114,6 +115,7 @@ func Load(repoDir, modulePath string, patterns []string) (*Engine, error) {
 			e.addFile(sf, p.Types)
 		}
 	})
+	e.expandSweeps()
 	return e, nil
 }
 
@@ -178,6 +180,7 @@ func (e *Engine) addFile(sf *spec.File, pkg *types.Package) {
 		}
 	}
 	e.Census = append(e.Census, sf.Census...)
+	e.Sweeps = append(e.Sweeps, sf.Sweeps...)
 	for _, s := range sf.Structs {
 		e.Structs = append(e.Structs, &StructDecl{Kind: s.Kind, Args: s.Args, Props: s.Props, Pkg: s.Pkg, File: s.File, Line: s.Line})
 	}
